@@ -413,11 +413,94 @@ def handleSendJoinPseudo (i : SendJoinPseudoIn) : R SendJoinOut :=
     | .valid =>
       if !i.storeOK then .error .other
       else match i.base.senderDomain with
-        | none => .error eForbidden
-        | some d =>
+        | .err => .error eForbidden
+        | .nil => .error eForbidden      -- `err != nil || sender == nil`: a key the querier has no user for (round-5 repair)
+        | .dom d =>
           if d != i.base.requestOrigin then .error eForbidden
           else if i.base.eventRoomID != i.base.roomID then .error eBadJSON
           else if i.base.eventID != i.base.reqEventID then .error eBadJSON
           else sendJoinEventChecks (pseudoBase i)
+
+/-! ## PerformJoin, room version org.matrix.msc4014
+
+  What the pseudo-ID path adds to PerformJoin: the sender ID is created (`GetOrCreateSenderID`), the join carries an
+  `mxid_mapping` signed by this server, the event is signed with the user's room key — and, between the sanity check of the
+  create event and `CheckSendJoinResponse`, `storeMXIDMappings` walks over every event of the response (auth chain, then
+  state) and hands the mapping of each membership event to the caller's `StoreSenderIDFromPublicID`.  The model keeps what
+  the property is about: which store calls are made, with which arguments, in which order, and where they sit relative to
+  the checks (BEFORE `CheckSendJoinResponse`: the auth checks in there look senders up through the caller's UserIDQuerier,
+  which answers from what was stored).  `CheckSendJoinResponse` itself is an oracle bit here (C14). -/
+
+/-- an `m.room.member` event of the send_join response, as `storeMXIDMappings` sees it -/
+structure PJMember where
+  /-- ev.SenderID() -/
+  sender : Bytes
+  /-- `getMXIDMapping`: `none` = error (content does not decode / no mxid_mapping), else (user_room_key, user_id) -/
+  mapping : Option (Bytes × Bytes)
+  /-- `validateMXIDMappingSignatures` succeeded: the mapping is signed by the server of `user_id`, and every signature on it
+      verifies through the key ring -/
+  mappingSigned : Bool
+  deriving Repr, DecidableEq, Inhabited
+
+/-- one observable step -/
+inductive PJStep where
+  /-- StoreSenderIDFromPublicID(senderID, userID, room) -/
+  | store (senderID userID : Bytes)
+  /-- CheckSendJoinResponse runs -/
+  | check
+  deriving Repr, DecidableEq, Inhabited
+
+inductive PJPErr where
+  | makeJoinFailed
+  | senderIDFailed          -- "Cannot create user room key"
+  | buildFailed             -- mapping.Sign / SetContent / Build
+  | sendJoinFailed
+  | noCreate                -- "sanityCheckAuthChain"
+  | storeFailed             -- "unable to store mxid_mapping": a membership event without mapping, or the callback failed
+  | checkFailed             -- "respSendJoin.Check"
+  deriving DecidableEq, Repr, Inhabited
+
+structure PerformJoinPseudoIn where
+  makeJoinOK : Bool
+  /-- GetOrCreateSenderID succeeded -/
+  senderIDOK : Bool
+  buildOK : Bool
+  sendJoinOK : Bool
+  create : CreateFound
+  knownVersion : Bytes → Bool
+  /-- the membership events among auth_chain ++ state, in that order -/
+  members : List PJMember
+  /-- the k-th call (counted from 0) of StoreSenderIDFromPublicID succeeds -/
+  storeOK : Nat → Bool
+  /-- CheckSendJoinResponse(…) == nil (C14) -/
+  checkOK : Bool
+
+/-- `storeMXIDMappings`: the calls made so far (`done`, newest last) and whether the loop returned an error.
+    The comparison `mapping.UserRoomKey != ev.SenderID()` is the round-5 repair: before it the pair stored was
+    (sender of the EVENT, user of the MAPPING) whatever key the mapping was about. -/
+def storeLoop (storeOK : Nat → Bool) : List PJMember → List (Bytes × Bytes) → List (Bytes × Bytes) × Bool
+  | [], done => (done, true)
+  | m :: rest, done =>
+    match m.mapping with
+    | none => (done, false)                                   -- `return err`
+    | some (key, user) =>
+      if key != m.sender then storeLoop storeOK rest done     -- not the sender's own mapping: skipped
+      else if !m.mappingSigned then storeLoop storeOK rest done   -- "invalid signature for mxid_mapping": skipped
+      else if storeOK done.length then storeLoop storeOK rest (done ++ [(m.sender, user)])
+      else (done ++ [(m.sender, user)], false)                 -- the callback failed
+
+/-- the trace of observable steps and the outcome -/
+def performJoinPseudo (i : PerformJoinPseudoIn) : List PJStep × Except PJPErr Unit :=
+  if !i.makeJoinOK then ([], .error .makeJoinFailed)
+  else if !i.senderIDOK then ([], .error .senderIDFailed)
+  else if !i.buildOK then ([], .error .buildFailed)
+  else if !i.sendJoinOK then ([], .error .sendJoinFailed)
+  else if !checkCreate i.knownVersion i.create then ([], .error .noCreate)
+  else
+    let (stores, ok) := storeLoop i.storeOK i.members []
+    let tr := stores.map (fun p => PJStep.store p.1 p.2)
+    if !ok then (tr, .error .storeFailed)
+    else if !i.checkOK then (tr ++ [.check], .error .checkFailed)
+    else (tr ++ [.check], .ok ())
 
 end V.Handshake
